@@ -14,6 +14,8 @@ CHECKS = {
             "Every reported pair and every candidate edge combination of every observed execution (corpus, rigid/jitter/thinning perturbations, threshold-sweeping two-residue placements) is judged by an independent dense evaluator; quantities within 1e-6 of a threshold are undecided."),
     "C04": ("contract on annotator.find_stackings + dense stacking reference model with margins", "4.C04",
             "Soundness and completeness of the stacking list against an O(n^2) evaluation of centroid distance, inter-normal angle and offset angle; placements sweep each quantity across its threshold."),
+    "C05": ("metamorphic twins through the real annotator, outputs compared modulo renaming, margins measured", "4.C05",
+            "Each case and its presentation twin (rigid motion, atom order, order-preserving relabelling, PDB vs mmCIF text of the same table) run through extract_secondary_structure; lists and 2D texts must be equal; pairs with a decision quantity within 1e-6 of a threshold in either member are excluded by measurement."),
     "C07": ("contract on BpSeq.elements + independent decomposition reference model", "4.C07",
             "Every observed decomposition is compared with maximal stacked runs, hairpin pairs, loop closure and an interior-coverage count per unpaired nucleotide; exhaustive small scope + random."),
     "C11": ("contracts on find_pairs/find_stackings + frozen Saenger/Zirbel tables + re-read CSV/JSON", "4.C11",
@@ -26,6 +28,8 @@ CHECKS = {
             "Every tool/library output for each (tool, options, input) triple is recorded under 3 (quick) / 6 (thorough) hash seeds plus an in-process repetition and compared byte for byte; the witness is the first differing line."),
     "C16": ("contract on all_dot_brackets + Grundy-colouring enumerator as reference model", "4.C16",
             "Set equality between the library's list and an independent enumeration of greedy-stable assignments, exhaustive over pairings up to N plus random multi-component knots."),
+    "C17": ("contract on find_clashes (all 32 option combinations) + O(n^2) reference + in-process CLI with parsed stdout/CSV", "4.C17",
+            "Set equality of the clash list with a dense enumeration for every option combination on corpus, scaled/jittered and synthetic partial-occupancy structures; printed maxima and CSV rows compared with the list."),
     "C18": ("contracts on both torsion functions judging every call against an independent dihedral + constructive builder", "4.C18",
             "Every call of either torsion implementation made by any workload (builder quadruples under rigid motions, reversal, mirroring; corpus chi/backbone torsions via Residue3D.chi, the annotator and Structure.torsion_angles) is compared with an IUPAC reference validated against a constructive builder in the same run."),
     "C19": ("contracts on the FR3D/DSSR importers + regular-expression reference of the label language", "4.C19",
@@ -39,12 +43,14 @@ LEVEL_NOTE = {
     "C02": "trusts the branch-and-bound reference (cross-checked exhaustively against CBC up to N); components >14 stems undecided; HiGHS absent",
     "C03": "frozen donor/acceptor/edge tables are the specification; three-atom base normal; one_letter_name trusted",
     "C04": "offset-angle direction reading documented in DESIGN.md 4.C04 (sound: undirected, complete: directed)",
+    "C05": "margins by the dense evaluator; T4 only for tables inside PDB limits with non-blank chain ids",
     "C07": "interior convention documented in DESIGN.md 4.C07; slices compared with the text elements itself used",
     "C11": "frozen Saenger table checked reverse-symmetric at start-up; Zirbel classes frozen",
     "C12": "fresh-object model rebuilt from the text at creation; all_dot_brackets compared as a set",
     "C13": "HiGHS configuration is an interface-compatible stub delegating to CBC; faults injected at actualSolve/status",
     "C14": "hash seeds sampled, not enumerated; third-party libraries assumed deterministic given the seed",
     "C16": "components up to 8 stems (enumeration is factorial inside the library)",
+    "C17": "frozen radii; typing by first letter of the stripped name; null occupancy = 1; is_nucleotide trusted",
     "C18": "reference dihedral formula validated by construction; tolerance 1e-9; degenerate geometry (sine product < 1e-3) skipped",
     "C19": "label/unit-id grammar is the specification side; decorated non-LW labels and liberal-int numbers undecided",
     "C20": "category order in the file is not demanded (the third-party writer moves atom_site last); alphabet overflow outside the statement",
